@@ -101,6 +101,7 @@ def run(ctx):
     o6b(ctx, F)
     o8(ctx, F, roles["search"])
     o7(ctx, F)
+    o11(ctx, F)
     # "exactly one bestmove ... at the depth limit", "neither panics nor deadlocks": the search a `go` starts must end by itself
     # at its limit and its driver must not panic or spin - the driver rules of C08 are necessary conditions here
     from . import p08
@@ -488,6 +489,28 @@ def o7(ctx, F):
     # list the panic-propagation edges (lock().unwrap(), join().unwrap()) for the record
     ctx.note("panic-propagation edges: every lock().unwrap()/join().unwrap() site panics only if the search thread panicked; "
              "those panics are the obligations of C08/C13/C15 (%d lock sites)" % len(sites))
+
+
+def o11(ctx, F):
+    """O11 the command loop is not left through an error while idle: a `?` in uci_talk's loop whose operand is the handle of the search
+    thread (`search_thread.context(..)?` - an error when there is none) stands under "a search is running" - otherwise the
+    first `ucinewgame` / `stop` of a session ends the engine."""
+    fn = F.fn(TALK)
+    body = fn["hir"]["body"]
+    sym = hir.Sym(hir.Env(fn["hir"], F), F)
+    n = 0
+    for m, anc in hir.walk(body):
+        if m.get("k") == "Match" and str(m.get("src", "")).startswith("TryDesugar") and any(a_.get("k") == "Loop" for a_ in anc):
+            if "search_thread" not in hir.fmt(sym(m["e"]), 300):
+                continue
+            n += 1
+            g = hir.guards_of(m, body, sym) or []
+            running = any(x[0] == "if" and x[2] is True and "load(search_is_running" in hir.fmt(x[1], 200).replace("std::sync::atomic::Atomic::", "").replace("<bool>::", "")
+                          for x in g)
+            ctx.check("C14.O11", "thread-handle-demanded-only-while-searching", running, fn=TALK, file=fn["file"], line=hir.line(m),
+                      what="the command loop returns an error when there is no search thread, on a path that is taken while no search is "
+                           "running: the session ends at the first such command", expected="under `if search_is_running.load(..)`",
+                      found=[(hir.fmt(x[1], 80), x[2]) for x in g if x[0] == "if"][-3:])
 
 
 def o6b(ctx, F):
